@@ -241,17 +241,24 @@ Fixpoint join_slash (l : list (list Z)) : list Z :=
   | [x] => x
   | x :: rest => x ++ 47 :: join_slash rest
   end.
+(* POSIX: exactly two leading slashes are kept, three or more count as one *)
+Definition initial_slashes (path : list Z) : nat :=
+  match path with
+  | a :: t =>
+      if a =? 47 then
+        match t with
+        | b :: t2 => if b =? 47 then match t2 with c :: _ => if c =? 47 then 1%nat else 2%nat | [] => 2%nat end
+                     else 1%nat
+        | [] => 1%nat
+        end
+      else 0%nat
+  | [] => 0%nat
+  end.
 Definition normpath (path : list Z) : list Z :=
   match path with
   | [] => [46]
   | _ =>
-      let slashes : nat :=
-        match path with
-        | 47 :: 47 :: 47 :: _ => 1%nat
-        | 47 :: 47 :: _ => 2%nat
-        | 47 :: _ => 1%nat
-        | _ => 0%nat
-        end in
+      let slashes := initial_slashes path in
       let comps := rev (fold_left (norm_step (negb (Nat.eqb slashes 0))) (split_on 47 path) []) in
       let p := repeat 47 slashes ++ join_slash comps in
       match p with [] => [46] | _ => p end
